@@ -16,10 +16,18 @@ operations is preserved by `eval`.  Instances:
 * `natOps q`                    : canonical representatives, with the kernel's GMP-accelerated
                                   `Nat.add/mul/mod` — what `decide +kernel` runs.
 
-`master`: if the two components of `e` in the pair algebra over `natOps` vanish on a grid `S × T`
-whose sides exceed the degree bounds (computed by `degOps`), then the two components of `e` over
-`Fq[X][Y]` are the zero polynomial, hence `e` evaluates to `0` in `Fq` at every `(x₁, x₂, p)` with
-`p² = De(x₁, x₂)`.
+`var (2+2i)` / `var (3+2i)` stand for the `i`-th shared univariate sub-expression `defs[i]` at `x₁` / `x₂`
+(`extEnv`; in the kernel run they are computed once per row / column of the grid).
+
+`master`: if the two components of `e` in the pair algebra over `natOps` vanish on the grid
+`{0..s-1} × {0..t-1}` (`gridCheck`, split into row blocks by `rowsCheck_add`) whose sides exceed the
+degree bounds computed by `degOps` (`degCheck`; `none` = the zero polynomial), then the two components of
+`e` over `Fq[X][Y]` are the zero polynomial (`eq_zero_of_grid`), hence `e` evaluates to `0` in `Fq` at
+every `(x₁, x₂, p)` with `p² = De(x₁, x₂)`.
+
+Cost model (Lean 4.33 kernel): ~150 µs per structural-recursion step, ~17 µs per `Nat.mul/mod` on 381-bit
+literals when `Nat.add/mul/mod` are called directly (3× more through the `+ * %` notation classes,
+10× more through `Zp`); memory ~0.5 GB per 100 evaluations of a 150-node term, freed after each theorem.
 -/
 import Mathlib.Algebra.Polynomial.Bivariate
 import Mathlib.Algebra.Polynomial.Roots
